@@ -13,7 +13,7 @@ import (
 var (
 	SnipNames  = []string{"sa", "sb", "sc", "deep", "self"}
 	MacroNames = []string{"m1", "m2", "mm", "empty", "loop"}
-	FileNames  = []string{"inc1", "inc2", "inc3", "selfinc", "muta", "mutb"}
+	FileNames  = []string{"inc1", "inc2", "inc3", "selfinc", "muta", "mutb", "inc4"}
 	EnvKeys    = []string{"H", "DOMAIN", "X}Y", "a$b", "E", "NEST"}
 	dirNames   = []string{"smtp", "hostname", "tls", "check", "modify", "deliver_to", "a", "b", "auth.pass_table", "x-y_z", "été", "日本", "d9"}
 	words      = []string{"x", "y", "example.org", "tcp:0.0.0.0:25", "&ref", "=", "1", "off", "é", "日本語", "a=b", "(p)", "$", "$1@$3", "a)b", "(", ")"}
@@ -23,6 +23,23 @@ type Gen struct {
 	R     *vh.Rng
 	CRLF  bool
 	InDir bool // generating the content of an imported file
+	// Chaos 0: only constructs that parse (all syntax features, valid references);
+	// 1: a few ill-formed constructs; 2: many.
+	Chaos int
+	Snips []string // snippets this configuration declares (Chaos 0 imports only these, acyclically)
+	Files []string // importable files that exist
+	rank  int      // inside the body of Snips[rank-1]: may import Snips[:rank-1] only (Chaos 0); 0 = anywhere
+}
+
+func (g *Gen) weird(p1, p2 int) bool {
+	switch g.Chaos {
+	case 0:
+		return false
+	case 1:
+		return g.R.Intn(1000) < p1*10/4
+	default:
+		return g.R.Chance(p2)
+	}
 }
 
 func (g *Gen) nl() string {
@@ -39,29 +56,35 @@ func (g *Gen) Pick3(xs ...string) string { return xs[g.R.Intn(len(xs))] }
 
 func (g *Gen) name() string {
 	r := g.R
-	switch x := r.Intn(100); {
-	case x < 70:
-		return g.pick(dirNames)
-	case x < 74:
-		return "1abc"
-	case x < 77:
-		return `""`
-	case x < 80:
-		return "bad!name"
-	case x < 83:
-		return "(" + g.pick(SnipNames) + ")"
-	case x < 86:
-		return "$(" + g.pick(MacroNames) + ")"
-	case x < 88:
-		return "$(" + g.pick(MacroNames)
-	case x < 90:
-		return "{"
-	case x < 92:
-		return `"quoted name"`
-	case x < 94:
-		return "{env:H}"
-	default:
+	if !g.weird(15, 15) {
+		if r.Chance(85) {
+			return g.pick(dirNames)
+		}
 		return g.pick(dirNames) + g.pick([]string{"", "1", ".x", "_", "-"})
+	}
+	switch x := r.Intn(30); {
+	case x < 4:
+		return "1abc"
+	case x < 7:
+		return `""`
+	case x < 10:
+		return "bad!name"
+	case x < 13:
+		return "(" + g.pick(SnipNames) + ")"
+	case x < 16:
+		return "$(" + g.pick(MacroNames) + ")"
+	case x < 18:
+		return "$(" + g.pick(MacroNames)
+	case x < 20:
+		return "{"
+	case x < 22:
+		return `"quoted name"`
+	case x < 24:
+		return "{env:H}"
+	case x < 26:
+		return "$()"
+	default:
+		return g.pick(words)
 	}
 }
 
@@ -89,12 +112,16 @@ func (g *Gen) quoted() string {
 		case 7:
 			b.WriteString("$(" + g.pick(MacroNames) + ")")
 		case 8:
-			b.WriteString(`\`)
+			if g.Chaos > 0 {
+				b.WriteString(`\`)
+			} else {
+				b.WriteString(`\x`)
+			}
 		default:
 			b.WriteString(g.pick(words))
 		}
 	}
-	if !r.Chance(4) {
+	if !g.weird(4, 4) {
 		b.WriteByte('"')
 	}
 	return b.String()
@@ -102,34 +129,29 @@ func (g *Gen) quoted() string {
 
 func (g *Gen) arg() string {
 	r := g.R
+	if g.weird(10, 14) {
+		return g.pick([]string{"{", "}", "}", `\`, "$()", `"{`, "\"", "{env:", "$(", "x$(m1"})
+	}
 	switch x := r.Intn(100); {
-	case x < 40:
+	case x < 45:
 		return g.pick(words)
-	case x < 55:
+	case x < 60:
 		return g.quoted()
-	case x < 63:
+	case x < 68:
 		return "$(" + g.pick(MacroNames) + ")"
-	case x < 70:
+	case x < 75:
 		return g.pick(words) + "$(" + g.pick(MacroNames) + ")" + g.pick([]string{"", "z", "$(" + g.pick(MacroNames) + ")"})
-	case x < 77:
-		return "{env:" + g.pick(EnvKeys) + "}"
-	case x < 80:
-		return "pre{env:" + g.pick(EnvKeys) + "}post{env:UNSET}"
 	case x < 82:
-		return "{"
+		return "{env:" + g.pick(EnvKeys) + "}"
 	case x < 85:
-		return "}"
-	case x < 87:
-		return `\`
-	case x < 89:
+		return "pre{env:" + g.pick(EnvKeys) + "}post{env:UNSET}"
+	case x < 88:
 		return `"{"`
 	case x < 91:
-		return `"}"`
+		return `"}" x`
 	case x < 93:
-		return "$()"
-	case x < 95:
 		return "x$()"
-	case x < 97:
+	case x < 96:
 		return `a\"b`
 	default:
 		return `""`
@@ -148,28 +170,50 @@ func (g *Gen) args(b *strings.Builder) {
 	}
 }
 
-func (g *Gen) importLine(b *strings.Builder) {
+// importable returns the names a well-formed import may use here.
+func (g *Gen) importable() []string {
+	var xs []string
+	if g.rank == 0 {
+		xs = append(xs, g.Snips...)
+	} else {
+		xs = append(xs, g.Snips[:g.rank-1]...)
+	}
+	if !g.InDir {
+		xs = append(xs, g.Files...)
+	}
+	return xs
+}
+
+func (g *Gen) importLine(b *strings.Builder) bool {
 	r := g.R
+	if !g.weird(30, 45) {
+		xs := g.importable()
+		if len(xs) == 0 {
+			return false
+		}
+		b.WriteString("import " + g.pick(xs))
+		if r.Chance(8) {
+			b.WriteString(" {" + g.nl() + "ignored" + g.nl() + "}")
+		}
+		return true
+	}
 	b.WriteString("import")
 	switch x := r.Intn(100); {
-	case x < 45:
+	case x < 35:
 		b.WriteString(" " + g.pick(SnipNames))
-	case x < 65:
+	case x < 55:
 		b.WriteString(" " + g.pick(FileNames))
-	case x < 72:
+	case x < 65:
 		b.WriteString(" unknown_thing")
-	case x < 76:
+	case x < 72:
 	case x < 80:
 		b.WriteString(" " + g.pick(SnipNames) + " " + g.pick(SnipNames))
-	case x < 84:
+	case x < 88:
 		b.WriteString(" $(" + g.pick(MacroNames) + ")")
-	case x < 87:
-		b.WriteString(" " + g.pick([]string{".", "..", `""`}))
-	case x < 90:
-		b.WriteString(" " + g.pick(SnipNames) + " {" + g.nl() + "ignored" + g.nl() + "}")
 	default:
-		b.WriteString(" " + g.pick(SnipNames))
+		b.WriteString(" " + g.pick([]string{".", "..", `""`}))
 	}
+	return true
 }
 
 // directive writes one directive (with optional block) at the given block depth.
@@ -178,10 +222,11 @@ func (g *Gen) directive(b *strings.Builder, depth int, imports *int) {
 	ind := strings.Repeat(" ", depth*2)
 	b.WriteString(ind)
 	if r.Chance(12) && *imports > 0 {
-		*imports--
-		g.importLine(b)
-		b.WriteString(g.nl())
-		return
+		if g.importLine(b) {
+			*imports--
+			b.WriteString(g.nl())
+			return
+		}
 	}
 	b.WriteString(g.name())
 	g.args(b)
@@ -200,10 +245,14 @@ func (g *Gen) directive(b *strings.Builder, depth int, imports *int) {
 			b.WriteString(" {" + g.nl() + ind + "  " + g.pick(dirNames) + " " + g.pick(words) + " }")
 		case x < 88:
 			b.WriteString(" { " + g.pick(dirNames) + " " + g.pick(words) + " }")
-		case x < 94:
-			b.WriteString(" {" + g.nl() + ind + "}" + " trailing")
 		default:
-			b.WriteString(g.nl() + ind + "{" + g.nl() + ind + "}")
+			if g.Chaos == 0 {
+				b.WriteString(" {" + g.nl() + ind + "}")
+			} else if x < 94 {
+				b.WriteString(" {" + g.nl() + ind + "}" + " trailing")
+			} else {
+				b.WriteString(g.nl() + ind + "{" + g.nl() + ind + "}")
+			}
 		}
 	}
 	if r.Chance(8) {
@@ -220,47 +269,77 @@ func (g *Gen) Config() string {
 		b.WriteString("\ufeff")
 	}
 	imports := 3
+	// item kinds: -1-k = declaration of Snips[k]; 0 macro; 1 comment; 2 blank; 3 directive; 4 stray snippet
+	var items []int
+	for k := range g.Snips {
+		items = append(items, -1-k)
+	}
 	n := 1 + r.Intn(7)
 	for i := 0; i < n; i++ {
 		switch x := r.Intn(100); {
-		case x < 14: // macro declaration
+		case x < 16:
+			items = append(items, 0)
+		case x < 21:
+			items = append(items, 1)
+		case x < 24:
+			items = append(items, 2)
+		case x < 28 && g.Chaos > 0:
+			items = append(items, 4)
+		default:
+			items = append(items, 3)
+		}
+	}
+	for i := len(items) - 1; i > 0; i-- {
+		j := r.Intn(i + 1)
+		items[i], items[j] = items[j], items[i]
+	}
+	snippet := func(name string, rank int) {
+		b.WriteString("(" + name + ")")
+		if g.weird(6, 6) {
+			b.WriteString(" arg")
+		}
+		if !g.weird(8, 8) {
+			b.WriteString(" {" + g.nl())
+			g.rank = rank
+			k := r.Intn(3)
+			for j := 0; j < k; j++ {
+				g.directive(&b, 1, &imports)
+			}
+			if r.Chance(45) && imports > 0 {
+				b.WriteString("  ")
+				if g.importLine(&b) {
+					imports--
+				} else {
+					b.WriteString("x")
+				}
+				b.WriteString(g.nl())
+			}
+			g.rank = 0
+			b.WriteString("}")
+		}
+		b.WriteString(g.nl())
+	}
+	for _, it := range items {
+		switch {
+		case it < 0:
+			snippet(g.Snips[-1-it], -it)
+		case it == 4:
+			snippet(g.pick(SnipNames), 0)
+		case it == 0: // macro declaration
 			b.WriteString("$(" + g.pick(MacroNames) + ")")
-			switch y := r.Intn(10); {
-			case y < 7:
-				b.WriteString(" =")
-			case y < 8:
-				b.WriteString(" ")
-			default:
-				b.WriteString(" = ")
+			if g.weird(20, 25) {
+				b.WriteString(g.pick([]string{" ", " x", "", " = "}))
+			} else {
+				b.WriteString(" = " + g.pick(words))
 			}
 			g.args(&b)
-			if r.Chance(30) {
+			if r.Chance(25) {
 				b.WriteString(" $(" + g.pick(MacroNames) + ")")
 			}
 			b.WriteString(g.nl())
-		case x < 28: // snippet declaration
-			b.WriteString("(" + g.pick(SnipNames) + ")")
-			if r.Chance(6) {
-				b.WriteString(" arg")
-			}
-			if r.Chance(92) {
-				b.WriteString(" {" + g.nl())
-				k := r.Intn(3)
-				for j := 0; j < k; j++ {
-					g.directive(&b, 1, &imports)
-				}
-				if r.Chance(35) && imports > 0 {
-					imports--
-					b.WriteString("  ")
-					g.importLine(&b)
-					b.WriteString(g.nl())
-				}
-				b.WriteString("}")
-			}
-			b.WriteString(g.nl())
-		case x < 33:
+		case it == 1:
 			b.WriteString("# just a comment" + g.nl())
-		case x < 36:
+		case it == 2:
 			b.WriteString(g.nl())
 		default:
 			g.directive(&b, 0, &imports)
